@@ -5,7 +5,10 @@ package main
 
 import (
 	"bytes"
+	"fmt"
 	"reflect"
+	"strconv"
+	"strings"
 	"time"
 
 	"github.com/pion/rtp"
@@ -99,6 +102,43 @@ func pktzObsPkts(o *Toks, pkts []*rtp.Packet) {
 	for _, p := range pkts {
 		pktzObsPkt(o, p)
 	}
+}
+
+// pktzDeltaMin: padding bursts longer than this are written in the delta form.
+const pktzDeltaMin = 1024
+
+// pktzObsPktsDelta writes the packets of a long padding burst: `<n> item*`, item := `+ pkt` | `= <seq>`
+// (lean/Driver/Kinds/Pktz.lean, rdPktsDelta).  Every packet is observed in full (pktzObsPkt); `= seq`
+// is written only when that observation equals, token for token, the observation of the preceding
+// packet with the sequence number replaced (token 5, and octets 2–3 of the wire image): a lossless
+// transport encoding of the same list.
+func pktzObsPktsDelta(o *Toks, pkts []*rtp.Packet) {
+	o.Nat(len(pkts))
+	var prev []string
+	for _, p := range pkts {
+		var t Toks
+		pktzObsPkt(&t, p)
+		cur := t.String()
+		if want, ok := pktzWithSeq(prev, p.SequenceNumber); ok && want == cur {
+			o.Tok("=").Nat(int(p.SequenceNumber))
+		} else {
+			o.Tok("+").Tok(cur)
+		}
+		prev = strings.Fields(cur)
+	}
+}
+
+// pktzWithSeq renders the observation `prev` (tokens of pktzObsPkt) with another sequence number;
+// false when prev has no wire image of at least 4 octets.
+func pktzWithSeq(prev []string, seq uint16) (string, bool) {
+	n := len(prev)
+	if n < 12 || prev[n-3] != "ok" || len(prev[n-2]) < 8 {
+		return "", false
+	}
+	out := append([]string(nil), prev...)
+	out[5] = strconv.Itoa(int(seq))
+	out[n-2] = prev[n-2][:4] + fmt.Sprintf("%04x", seq) + prev[n-2][8:]
+	return strings.Join(out, " "), true
 }
 
 // ---- payloaders and payloads
